@@ -23,6 +23,16 @@ Definition qubit_id (q : nat) (st : lst) : res nat :=
   match alook q (l_q st) with Some i => Ok i | None => Err EIll end.
 Definition set_q (r : reg) (id : nat) : sir := XI (ISet r (Z.of_nat id)).
 
+(* the register of a register future usable as an operand NOW: an M register only in the flush
+   block that assigned it (M registers are handed out afresh after every flush; afterwards the
+   host reads the returned value); a register claimed with new_register at any time *)
+Definition rf_lookup (r : nat) (st : lst) : option reg :=
+  match alook r (l_rf st) with
+  | Some (Rg BM m) => Some (Rg BM m)
+  | Some (Rg BR k) => Some (Rg BR k)
+  | _ => None                       (* stale: an M register future of an earlier flush block *)
+  end.
+
 Definition low_ix (ix : index) (st : lst) : res rop :=
   match ix with
   | IxC n => Ok (PImm (Z.of_nat n))
@@ -37,7 +47,7 @@ Definition low_cval (x : cval) (st : lst) : res (list instr * rop * list nat * l
       let* ix' := low_ix ix st in
       let* (t, st1) := take st in
       Ok ([ILoad (R t) a ix'], PReg (R t), [t], st1)
-  | VReg r => match alook r (l_rf st) with Some m => Ok ([], PReg (M m), [], st) | None => Err EIll end
+  | VReg r => match rf_lookup r st with Some m => Ok ([], PReg m, [], st) | None => Err EIll end
   | VLoop v => match alook v (l_lv st) with Some r => Ok ([], PReg (R r), [], st) | None => Err EIll end
   end.
 
@@ -63,7 +73,7 @@ Definition deactivate (q : nat) (st : lst) : lst := with_qs st (adel q (l_q st))
 Definition declare (a n : nat) (init : option (list (option Z))) (st : lst) : res lst :=
   if Nat.eqb a (l_next st) then
     Ok (mkL (l_act st) (l_peak st) (l_mused st) (l_q st) (S (l_next st)) (l_decl st ++ [(a, n, init)])
-            (l_ret st) (l_rf st) (l_lv st) ((a, n) :: l_len st))
+            (l_ret st) (l_rf st) (l_lv st) ((a, n) :: l_len st) (l_mscr st))
   else Err EIll.
 
 (* the arrays of an EPR operation: entanglement results, qubit ids (all equal when the
@@ -76,13 +86,14 @@ Fixpoint epr_arrays_at (i n : nat) (seq : bool) (st : lst) : lst :=
       let init := if seq && Nat.eqb i 1 then Some [Some 0%Z; Some 0%Z] else None in
       epr_arrays_at (S i) n' seq
         (mkL (l_act st) (l_peak st) (l_mused st) (l_q st) (S a) (l_decl st ++ [(a, 2, init)])
-             (l_ret st) (l_rf st) (l_lv st) ((a, 2) :: l_len st))
+             (l_ret st) (l_rf st) (l_lv st) ((a, 2) :: l_len st) (l_mscr st))
   end.
 Definition epr_arrays (n : nat) (seq : bool) (st : lst) : lst := epr_arrays_at 0 n seq st.
 
-Definition bind_rf (r m : nat) (st : lst) : lst :=
+(* names denote handles: a register-future name is bound once (the model rejects re-use) *)
+Definition bind_rf (r : nat) (m : reg) (st : lst) : lst :=
   mkL (l_act st) (l_peak st) (l_mused st) (l_q st) (l_next st) (l_decl st) (l_ret st)
-      ((r, m) :: adel r (l_rf st)) (l_lv st) (l_len st).
+      ((r, m) :: l_rf st) (l_lv st) (l_len st) (l_mscr st).
 
 Definition bind_lvr (v r : nat) (st : lst) : lst := with_lvs st ((v, r) :: l_lv st).
 
@@ -119,8 +130,10 @@ Fixpoint lower_stmt (fd : bool) (s : stmt) (st : lst) {struct s} : res (list sir
       let* (m, c, st1) := low_meas q ip false st0 in
       Ok (c ++ [XI (IStore (PReg (M m)) a (PImm 0))], st1)
   | SMeasReg q ip r =>
+      match alook r (l_rf st) with Some _ => Err EIll | None =>
       let* (m, c, st1) := low_meas q ip true st in
-      Ok (c, bind_rf r m st1)
+      Ok (c, bind_rf r (M m) st1)
+      end
   | SFree q =>
       let* id := qubit_id q st in
       Ok ([set_q Q0 id; XI (IQ QFree Q0)], if fd then deactivate q st else st)
@@ -135,11 +148,18 @@ Fixpoint lower_stmt (fd : bool) (s : stmt) (st : lst) {struct s} : res (list sir
       Ok (map XI ([ILoad (R t) a ix'] ++ lo ++ [add_instr (R t) (R t) y m; IStore (PReg (R t)) a ix']),
           release_all ts (release t st2))
   | SRegAdd r o m =>
-      match alook r (l_rf st) with
-      | None => Err EIll
-      | Some k =>
+      match rf_lookup r st with
+      | Some (Rg BM k) =>
           let* (lo, y, ts, st1) := low_src o st in
           Ok (map XI (lo ++ [add_instr (M k) (M k) y m]), release_all ts st1)
+      | _ => Err EIll
+      end
+  | SUAdd r o m =>
+      match alook r (l_rf st) with
+      | Some (Rg BR k) =>
+          let* (lo, y, ts, st1) := low_src o st in
+          Ok (map XI (lo ++ [add_instr (R k) (R k) y m]), release_all ts st1)
+      | _ => Err EIll
       end
   | SIf c cb x y body =>
       let* (cbody, st1) := lower_block fd body st in
@@ -151,27 +171,45 @@ Fixpoint lower_stmt (fd : bool) (s : stmt) (st : lst) {struct s} : res (list sir
           let* (ly, py, ty, st3) := low_cval y st2 in
           Ok ([XIf (lx ++ ly) c px py cbody], release_all (tx ++ ty) st3)
       end
-  | SLoop cb v start stop step body =>
+  | SNewReg r init =>
+      match alook r (l_rf st) with Some _ => Err EIll | None =>
+      let* (k, st1) := take st in
+      Ok ([XI (ISet (R k) init)],
+          mkL (l_act st1) (l_peak st1) (l_mused st1) (l_q st1) (l_next st1) (l_decl st1)
+              (l_ret st1 ++ [R k]) ((r, R k) :: l_rf st1) (l_lv st1) (l_len st1) (l_mscr st1))
+      end
+  | SLoop cb v None start stop step body =>
+      match alook v (l_lv st) with Some _ => Err EIll | None =>
       let* (r, st1) := take st in
       let* (cbody, st2) := lower_block fd body (bind_lvr v r st1) in
       let st3 := release r (with_lvs st2 (l_lv st)) in
       if is_nil cbody then Ok ([], st3) else Ok ([XLoop (R r) start stop step cbody], st3)
+      end
+  | SLoop cb v (Some k) start stop step body =>
+      match alook v (l_lv st) with Some _ => Err EIll | None =>
+      let* (r, st1, mine) := claim k st in
+      let* (cbody, st2) := lower_block fd body (bind_lvr v r st1) in
+      let st3 := (if mine then release r (with_lvs st2 (l_lv st)) else with_lvs st2 (l_lv st)) in
+      if is_nil cbody then Ok ([], st3) else Ok ([XLoop (R r) start stop step cbody], st3)
+      end
   | SForeach enum v a body =>
-      match alook a (l_len st) with
-      | None => Err EIll
-      | Some n =>
+      match alook a (l_len st), alook v (l_lv st) with
+      | Some n, None =>
           let* (r, st1) := take st in
           let* (cbody, st2) := lower_block fd body (bind_lvr v r st1) in
           let st3 := release r (with_lvs st2 (l_lv st)) in
           if is_nil cbody then Ok ([], st3) else Ok ([XLoop (R r) 0 (Z.of_nat n) 1 cbody], st3)
+      | _, _ => Err EIll
       end
   | SLoopUntil v maxit body cx bound cleanup =>
+      match alook v (l_lv st) with Some _ => Err EIll | None =>
       let* (r, st1) := take st in
       let* (cbody, st2) := lower_block fd body (bind_lvr v r st1) in
       if is_nil cbody then Ok ([], release r (with_lvs st2 (l_lv st))) else
       let* (lx, px, tx, st3) := low_cval cx st2 in
       let* (ccl, st4) := lower_block fd cleanup (release_all tx st3) in
       Ok ([XUntil (R r) maxit cbody lx px (bound + 1) ccl], release r (with_lvs st4 (l_lv st)))
+      end
   | SEpr k body =>
       match k with
       | EKeep n => match body with BNil => Ok ([XI (IOpaque 0)], epr_arrays n false st) | _ => Err EIll end
@@ -243,13 +281,17 @@ Fixpoint init_code (ds : list arrdecl) (P : list sir) (st : lst) : res (list sir
       end
   end.
 
+Definition STALE : reg := Rg BC 0.
+Definition stale_rf (l : list (nat * reg)) : list (nat * reg) :=
+  map (fun p : nat * reg => match snd p with Rg BM _ => (fst p, STALE) | _ => p end) l.
 Definition reset_block (st : lst) : lst :=
-  mkL (l_act st) (l_peak st) (repeat false NREGS) (l_q st) (l_next st) [] [] (l_rf st) (l_lv st) (l_len st).
+  mkL (l_act st) (l_peak st) (repeat false NREGS) (l_q st) (l_next st) [] [] (stale_rf (l_rf st)) (l_lv st) (l_len st)
+      (repeat false NREGS).
 
 Definition lower_flush (body : list sir) (st : lst) : res (option (list sir) * lst) :=
   let* (P, st1) := init_code (l_decl st) [] st in
   let full := P ++ body ++ map (fun d : arrdecl => XI (IRetArr (fst (fst d)))) (l_decl st)
-                ++ map (fun m => XI (IRetReg (M m))) (l_ret st) in
+                ++ map (fun m => XI (IRetReg m)) (l_ret st) in
   Ok (if is_nil full then None else Some full, reset_block st1).
 
 (* whole program: one entry per flush (None = nothing pending, no subroutine sent) *)
